@@ -29,3 +29,11 @@ pub fn params(run: &Run) -> Params {
         Params::quick()
     }
 }
+
+pub fn params_for(thorough: bool) -> Params {
+    if thorough {
+        Params::thorough()
+    } else {
+        Params::quick()
+    }
+}
